@@ -702,6 +702,53 @@ func bruteTriDist(p, a, b, c pvec) float64 {
 	return pvNorm(pvSub(p, q))
 }
 
+// genTriangleDist: a single 3-D triangle as an (unsigned) distance field: Dist and Closest against a brute-force
+// distance; every third one has zero area (collinear or repeated corners), where the distance is that to its sides
+func genTriangleDist(rng *rand.Rand, kind int) *primShape {
+	v := func() [3]int { return [3]int{ri(rng, -3, 3), ri(rng, -3, 3), ri(rng, -3, 3)} }
+	a, b, c := v(), v(), v()
+	name := "generic"
+	switch kind % 4 {
+	case 1:
+		d := [3]int{ri(rng, -1, 1), ri(rng, -1, 1), ri(rng, -1, 1)}
+		if d == [3]int{} {
+			d = [3]int{1, 0, -1}
+		}
+		b, c = i3add(a, d), i3add(a, i3scale(d, 3))
+		name = "collinear"
+	case 3:
+		c = b
+		name = "repeated corner"
+	}
+	if a == b || a == c {
+		a = i3add(a, [3]int{1, 2, 0})
+	}
+	t := &model3d.Triangle{v3c(i3f(a)), v3c(i3f(b)), v3c(i3f(c))}
+	s := &primShape{site: "model3d.Triangle", variant: fmt.Sprintf("%s %v %v %v", name, a, b, c), dim: 3, shape: "none", hasNoNormal: true}
+	s.bounds = func() (pvec, pvec) { return c3v(t.Min()), c3v(t.Max()) }
+	s.contains = func(pvec) bool { return false }
+	s.sdf = func(p pvec) float64 { return -t.Dist(v3c(p)) }
+	s.pointSDF = func(p pvec) (pvec, float64) { q := t.Closest(v3c(p)); return c3v(q), -q.Dist(v3c(p)) }
+	segDist := func(p, u, w pvec) float64 {
+		d := pvSub(w, u)
+		l2 := pvDot(d, d)
+		if l2 == 0 {
+			return pvNorm(pvSub(p, u))
+		}
+		f := math.Max(0, math.Min(1, pvDot(pvSub(p, u), d)/l2))
+		return pvNorm(pvSub(p, pvAdd(u, pvScale(d, f))))
+	}
+	A, B, C := i3f(a), i3f(b), i3f(c)
+	degenerate := kind%4 == 1 || kind%4 == 3
+	s.oracleDist = func(p pvec) float64 {
+		if degenerate {
+			return math.Min(segDist(p, A, B), math.Min(segDist(p, B, C), segDist(p, A, C)))
+		}
+		return bruteTriDist(p, A, B, C)
+	}
+	return s
+}
+
 // genMeshSDF: MeshToSDF over closed integer-coordinate meshes that are NOT voxel worlds (obtuse and acute
 // corners, slanted faces); the distance is compared with a brute-force minimum over the faces
 func genMeshSDF(rng *rand.Rand, kind int) *primShape {
@@ -1876,6 +1923,9 @@ func init() {
 		shapes = append(shapes, genProfilePrims(rng2, a.int("n", 4), false)...)
 		for i := 0; i < 9+a.int("n", 4); i++ {
 			shapes = append(shapes, genMeshSDF(rng2, i))
+		}
+		for i := 0; i < 8+a.int("n", 4); i++ {
+			shapes = append(shapes, genTriangleDist(rng2, i))
 		}
 		for i, s := range shapes {
 			if i == nFull {
